@@ -241,7 +241,9 @@ def proposeEliminations (ch : Chain) : List Nat :=
   let seeds := (List.range n).filter fun i =>
     let fm := ch.get i
     !fm.excluded && (fm.c.required || fm.c.desired || (fm.wanted && !fm.wantedInCluster))
-  let fuel := n * n + n + 8
+  -- (fuel: one step per entry of the work list, which starts with the seeds and grows by at most one entry per
+  --  requested type of a provider when that provider is first kept; proved sufficient in `NjectProofs/IncludeTerm2.lean`)
+  let fuel := n + (ch.map fun f => (f.usesIn ++ f.usesByp).length + f.usesRecv.length).sum + 8
   let kept := keepClosure ch true fuel seeds [] ++ keepClosure ch false fuel seeds []
   ((List.range n).filter fun i => (ch.get i).c.shun)
   ++ ((List.range n).filter fun i => !kept.contains i && !(ch.get i).c.shun)
